@@ -21,6 +21,13 @@
 //!       status: up | down <ret|noret> <reason the attached remotes were given, `none` without remotes> @<ms>
 //! The case ends at the first `down`.
 //!
+//! Engine `dl-inactivity` (first op `dl <T ms>`): the REAL `ValueDownlinkRuntime` (attachment, read and write task
+//! with the two-party coordinator) with `empty_timeout` = `T` ms on the paused clock; the remote lane has answered
+//! `linked` before the script starts; consumers attach without the SYNC option.
+//! ops:  attach <c> | dropc <c> (the consumer drops both its channels) | ev (the remote lane sends an event)
+//!       | cmd <c> (consumer c sends a command; the socket is always drained) | adv <k>
+//! out:  <ack> <status>   ack: ok | skipped;  status: up | down @<ms> (the time `run()` returned)
+//!
 //! Engine `coord-threads` (first op `threads <n> <seed> <len>`): the REAL coordinator for n = 2 or 3 parties, every
 //! voter on its own OS thread doing `len` random `vote` / `rescind` calls and then a final `vote`, `rescind` or drop.
 //! Every call is bracketed by two tickets from one global counter. (The voters of the three-party coordinator are
@@ -588,6 +595,218 @@ fn rt_case(t: &mut Trace, ops: &[String]) {
 }
 
 
+
+// ------------------------------------------------------------------------------------------------ dl-inactivity
+
+mod dl {
+    use super::{settle, soon};
+    use bytes::{BufMut, Bytes, BytesMut};
+    use futures::SinkExt;
+    use std::collections::BTreeMap;
+    use std::num::NonZeroUsize;
+    use std::sync::{Arc, Mutex};
+    use std::time::Duration;
+    use swimos_api::address::RelativeAddress;
+    use swimos_messages::protocol::{RawResponseMessageEncoder, ResponseMessage};
+    use swimos_model::Text;
+    use swimos_runtime::downlink::{
+        AttachAction, DownlinkOptions, DownlinkRuntimeConfig, IdentifiedAddress, ValueDownlinkRuntime,
+    };
+    use swimos_utilities::byte_channel::{byte_channel, ByteReader, ByteWriter};
+    use swimos_utilities::trigger;
+    use tokio::io::{AsyncReadExt, AsyncWriteExt};
+    use tokio::sync::mpsc;
+    use tokio::time::Instant;
+    use tokio_util::codec::FramedWrite;
+    use uuid::Uuid;
+
+    const REMOTE: Uuid = Uuid::from_u128(7);
+
+    fn nz(n: usize) -> NonZeroUsize {
+        NonZeroUsize::new(n.max(1)).unwrap()
+    }
+
+    struct Consumer {
+        _rx: ByteReader,
+        tx: ByteWriter,
+    }
+
+    pub async fn case(ops: Vec<String>) -> Vec<(String, String)> {
+        let first: Vec<&str> = ops.first().map(|s| s.split_whitespace().collect()).unwrap_or_default();
+        let t_ms = match first.as_slice() {
+            ["dl", t] => match t.parse::<u64>() {
+                Ok(t) if (100..=100000).contains(&t) => t,
+                _ => return ops.iter().map(|o| (o.clone(), "bad-op".to_string())).collect(),
+            },
+            _ => return ops.iter().map(|o| (o.clone(), "bad-op".to_string())).collect(),
+        };
+        let start = Instant::now();
+        let (req_tx, req_rx) = mpsc::channel(16);
+        let (sock_out_tx, mut sock_out_rx) = byte_channel(nz(1 << 16));
+        let (sock_in_tx, sock_in_rx) = byte_channel(nz(1 << 16));
+        let (stop_tx, stop_rx) = trigger::trigger();
+        let config = DownlinkRuntimeConfig {
+            empty_timeout: Duration::from_millis(t_ms),
+            attachment_queue_size: nz(16),
+            abort_on_bad_frames: true,
+            remote_buffer_size: nz(4096),
+            downlink_buffer_size: nz(4096),
+        };
+        let address = IdentifiedAddress {
+            identity: REMOTE,
+            address: RelativeAddress::new(Text::new("/node"), Text::new("lane")),
+        };
+        let rt = ValueDownlinkRuntime::new(req_rx, (sock_out_tx, sock_in_rx), stop_rx, address, config);
+        let done: Arc<Mutex<Option<u64>>> = Arc::new(Mutex::new(None));
+        let done2 = done.clone();
+        let runtime = async move {
+            rt.run().await;
+            *done2.lock().unwrap() = Some(start.elapsed().as_millis() as u64);
+            futures::future::pending::<()>().await;
+        };
+        let driver = async {
+            let mut sock_in = FramedWrite::new(sock_in_tx, RawResponseMessageEncoder);
+            let path = RelativeAddress::new("/node", "lane");
+            let linked: ResponseMessage<&str, Bytes, Bytes> = ResponseMessage::linked(REMOTE, path.clone());
+            let _ = soon(sock_in.send(linked)).await;
+            settle().await;
+            let mut consumers: BTreeMap<u64, Consumer> = BTreeMap::new();
+            let mut ever: Vec<u64> = vec![];
+            let mut seq = 0u64;
+            let mut out = vec![(ops[0].clone(), format!("ok init@{}", start.elapsed().as_millis()))];
+            for op in ops.iter().skip(1) {
+                let p: Vec<&str> = op.split_whitespace().collect();
+                let ack: String = match p.as_slice() {
+                    ["attach", c] => {
+                        let c: u64 = c.parse().unwrap();
+                        if ever.contains(&c) {
+                            "skipped".into()
+                        } else {
+                            ever.push(c);
+                            let (to_consumer_tx, to_consumer_rx) = byte_channel(nz(1 << 16));
+                            let (from_consumer_tx, from_consumer_rx) = byte_channel(nz(1 << 16));
+                            let action = AttachAction::new((to_consumer_tx, from_consumer_rx), DownlinkOptions::empty());
+                            if req_tx.try_send(action).is_err() {
+                                "runtime-gone".into()
+                            } else {
+                                consumers.insert(c, Consumer { _rx: to_consumer_rx, tx: from_consumer_tx });
+                                "ok".into()
+                            }
+                        }
+                    }
+                    ["dropc", c] => match consumers.remove(&c.parse::<u64>().unwrap()) {
+                        Some(cons) => {
+                            drop(cons);
+                            "ok".into()
+                        }
+                        None => "skipped".into(),
+                    },
+                    ["ev"] => {
+                        seq += 1;
+                        let msg: ResponseMessage<&str, Bytes, Bytes> =
+                            ResponseMessage::event(REMOTE, path.clone(), Bytes::from(format!("{}", seq)));
+                        match soon(sock_in.send(msg)).await {
+                            Some(Ok(())) => "ok".into(),
+                            _ => "socket-closed".into(),
+                        }
+                    }
+                    ["cmd", c] => match consumers.get_mut(&c.parse::<u64>().unwrap()) {
+                        Some(cons) => {
+                            seq += 1;
+                            let body = format!("{}", seq).into_bytes();
+                            let mut frame = BytesMut::new();
+                            frame.put_u64(body.len() as u64);
+                            frame.put_slice(&body);
+                            match soon(cons.tx.write_all(&frame)).await {
+                                Some(Ok(())) => "ok".into(),
+                                _ => "cmd-failed".into(),
+                            }
+                        }
+                        None => "skipped".into(),
+                    },
+                    ["adv", k] => {
+                        let k: u64 = k.parse().unwrap();
+                        tokio::time::sleep(Duration::from_millis(100 * k.min(100))).await;
+                        "ok".into()
+                    }
+                    _ => "bad-op".into(),
+                };
+                // run to quiescence, the socket is always drained
+                for _ in 0..3 {
+                    settle().await;
+                    let mut tmp = [0u8; 4096];
+                    while let Some(Ok(n)) = soon(sock_out_rx.read(&mut tmp)).await {
+                        if n == 0 {
+                            break;
+                        }
+                    }
+                }
+                let st = match *done.lock().unwrap() {
+                    Some(t) => format!("down @{}", t),
+                    None => "up".to_string(),
+                };
+                let down = st.starts_with("down");
+                out.push((op.clone(), format!("{} {}", ack, st)));
+                if down {
+                    break;
+                }
+            }
+            stop_tx.trigger();
+            out
+        };
+        tokio::select! {
+            biased;
+            out = driver => out,
+            _ = runtime => vec![],
+        }
+    }
+
+    pub fn gen(rng: &mut svh::Rng) -> Vec<String> {
+        let mut ops = vec!["dl 1001".to_string()];
+        let len = rng.range(3, 22);
+        let mut next = 1u64;
+        let mut live: Vec<u64> = vec![];
+        for _ in 0..len {
+            let c = rng.below(100);
+            if c < 32 {
+                let k = *rng.pick(&[1u64, 2, 3, 5, 5, 6, 9, 10, 11, 11, 12, 15, 21]);
+                ops.push(format!("adv {}", k));
+            } else if c < 50 {
+                ops.push(format!("attach {}", next));
+                live.push(next);
+                next += 1;
+            } else if c < 68 {
+                let x = if live.is_empty() || rng.chance(1, 10) { rng.range(1, 4) } else { *rng.pick(&live) };
+                ops.push(format!("dropc {}", x));
+                live.retain(|y| *y != x);
+            } else if c < 86 {
+                ops.push("ev".into());
+            } else {
+                let x = if live.is_empty() || rng.chance(1, 10) { rng.range(1, 4) } else { *rng.pick(&live) };
+                ops.push(format!("cmd {}", x));
+            }
+        }
+        ops
+    }
+}
+
+fn dl_case(t: &mut Trace, ops: &[String]) {
+    let rt = tokio::runtime::Builder::new_current_thread().enable_time().start_paused(true).build().unwrap();
+    let ops_v = ops.to_vec();
+    let res = std::panic::catch_unwind(std::panic::AssertUnwindSafe(|| {
+        rt.block_on(async move { tokio::time::timeout(Duration::from_secs(3600 * 48), dl::case(ops_v)).await })
+    }));
+    match res {
+        Ok(Ok(lines)) => {
+            for (op, o) in lines {
+                t.op(op, o);
+            }
+        }
+        Ok(Err(_)) => t.op("end", "hang"),
+        Err(_) => t.op("end", "panic"),
+    }
+}
+
 // ------------------------------------------------------------------------------------------------ coord-threads
 
 fn threads_case(n: usize, seed: u64, len: u64) -> String {
@@ -737,6 +956,7 @@ fn run_case(t: &mut Trace, ops: &[String]) {
     match ops.first().and_then(|o| o.split_whitespace().next()) {
         Some("rt") => rt_case(t, ops),
         Some("threads") => threads_ops(t, ops),
+        Some("dl") => dl_case(t, ops),
         _ => {
             for op in ops {
                 t.op(op, "bad-op");
@@ -759,6 +979,7 @@ fn main() {
                         let len = *rng.pick(&[2u64, 4, 8, 16, 40, 120]);
                         vec![format!("threads {} {} {}", n, rng.next() % 1_000_000_007, len)]
                     }
+                    "dl" => dl::gen(&mut rng),
                     _ => rt_gen(&mut rng),
                 };
                 t.case(format!("{} seed={}", c, seed));
